@@ -20,8 +20,8 @@
 
 import pickle
 from functools import reduce
-from os import makedirs
-from os.path import isdir, isfile, join
+from os import makedirs, replace
+from os.path import isdir, isfile, join, split
 from warnings import warn
 
 import numpy as np
@@ -429,14 +429,19 @@ def optimize_kl(likelihood_energy,
                     overwrite=True)
 
             if _MPI_master(comm(iglobal)):
-                with open(join(output_directory, "last_finished_iteration"), "w") as f:
-                    f.write(str(iglobal))
                 _pickle_save_values(iglobal, 'energy_history', energy_history)
                 if plot_energy_history:
                     _plot_energy_history(iglobal, energy_history)
         _barrier(comm(iglobal))
 
         _minisanity(lh, iglobal, sl, comm, plot_minisanity_history)
+        _barrier(comm(iglobal))
+
+        # Commit the iteration only after everything a resumed run reads
+        # (samples, mean, energy and minisanity history) is on disk.
+        if output_directory is not None and _MPI_master(comm(iglobal)):
+            _atomic_write(join(output_directory, "last_finished_iteration"), "w",
+                          lambda f: f.write(str(iglobal)))
         _barrier(comm(iglobal))
 
         _counting_report(count, iglobal, comm)
@@ -484,11 +489,20 @@ def _load_random_state():
         setState(f.read())
 
 
+def _atomic_write(file_name, mode, write):
+    # Write to a temporary file and rename it, such that a crash never leaves a
+    # truncated `file_name` behind.
+    head, tail = split(file_name)
+    tmp = join(head, ".tmp_" + tail)
+    with open(tmp, mode) as f:
+        write(f)
+    replace(tmp, file_name)
+
+
 def _pickle_save_values(index, name, val):
     file_name = join(_output_directory, f"pickle/{name}_")
     file_name += _file_name_by_strategy(index)
-    with open(file_name, "wb") as f:
-        pickle.dump(val, f)
+    _atomic_write(file_name, "wb", lambda f: pickle.dump(val, f))
 
 
 def _pickle_load_values(index, name):
